@@ -1628,3 +1628,148 @@ def _int_from(I, a, d):
             return z3.If(v, z3.BitVecVal(1, wd), z3.BitVecVal(0, wd))
         return z3.ZeroExt(wd - v.size(), v) if v.size() < wd else v
     raise Inconclusive("From<%r> for %s" % (v, to))
+
+
+# ---------------------------------------------------------------------------
+# futures: ready(), StreamExt combinators over model streams
+
+from . import asyncrt as _art  # noqa: E402
+
+
+@T.path("futures::future::ready", "futures_util::future::ready", "std::future::ready", "core::future::ready")
+def _future_ready(I, a, d):
+    v = a[0]
+    return _art.ModelFuture(lambda: v, "ready")
+
+
+def _await_now(I, fut, cx):
+    """Drive a future produced inside a stream combinator to completion (it must not be Pending)."""
+    if not (hasattr(peel(fut), "poll") or isinstance(peel(fut), (Coroutine, BoxV))):
+        return fut          # a plain value (sync closure)
+    cell = Cell(fut)
+    for _ in range(64):
+        r = _art.poll_any(I, _art.mk_pin(Ref(CellLoc(cell), True)), cx)
+        if r.vname == "Ready":
+            return r.fields[0]
+        rt = getattr(I.env, "runtime", None)
+        if rt is None or not rt.run_one(I):
+            raise Inconclusive("future inside a stream combinator stays Pending")
+    raise Hang("future inside a stream combinator never completes")
+
+
+class ComboStream:
+    rust_type = "ComboStream"
+
+    def __init__(self, kind, inner, f):
+        self.kind, self.inner, self.f = kind, inner, f
+        self.done = False
+
+    def _inner_next(self, I, cx):
+        s = peel(self.inner)
+        if not hasattr(s, "poll_next"):
+            raise Inconclusive("stream combinator over %r" % (s,))
+        r = s.poll_next(I, cx)
+        if r.vname == "Pending":
+            raise Inconclusive("Pending stream inside a combinator")
+        return r.fields[0]          # Option<item>
+
+    def poll_next(self, I, cx):
+        from .asyncrt import READY
+        if self.done:
+            return READY(NONE())
+        while True:
+            o = self._inner_next(I, cx)
+            if o.vname == "None":
+                self.done = True
+                return READY(NONE())
+            item = o.fields[0]
+            k = self.kind
+            if k == "map":
+                return READY(SOME(I.call_value(self.f, [item])))
+            if k == "then":
+                return READY(SOME(_await_now(I, I.call_value(self.f, [item]), cx)))
+            if k == "take_while":
+                keep = _await_now(I, I.call_value(self.f, [Ref(ValLoc(item))]), cx)
+                if _truth(I, keep, "stream-take_while"):
+                    return READY(SOME(item))
+                self.done = True
+                I.drop_value(item)
+                return READY(NONE())
+            if k == "filter":
+                keep = _await_now(I, I.call_value(self.f, [Ref(ValLoc(item))]), cx)
+                if _truth(I, keep, "stream-filter"):
+                    return READY(SOME(item))
+                I.drop_value(item)
+                continue
+            if k == "filter_map":
+                r = _opt(_await_now(I, I.call_value(self.f, [item]), cx))
+                if r.vname == "Some":
+                    return READY(SOME(r.fields[0]))
+                continue
+            raise Inconclusive("stream combinator %s" % k)
+
+
+for _k in ("map", "then", "take_while", "filter", "filter_map"):
+    def _mk(kind):
+        def model(I, a, d):
+            return ComboStream(kind, a[0], a[1])
+        return model
+    T.trait("StreamExt", _k)(_mk(_k))
+
+
+class StreamDrain:
+    """collect / fold / for_each / count futures over a model stream."""
+    rust_type = "StreamDrain"
+
+    def __init__(self, kind, stream, f=None, acc=None):
+        self.kind, self.stream, self.f, self.acc = kind, stream, f, acc
+
+    def poll(self, I, cx):
+        from .asyncrt import READY
+        items = []
+        s = ComboStream("map", self.stream, None)
+        n = 0
+        while True:
+            o = s._inner_next(I, cx)
+            if o.vname == "None":
+                break
+            item = o.fields[0]
+            n += 1
+            if n > 10000:
+                raise Hang("stream does not terminate")
+            if self.kind == "collect":
+                items.append(item)
+            elif self.kind == "fold":
+                self.acc = _await_now(I, I.call_value(self.f, [self.acc, item]), cx)
+            elif self.kind == "for_each":
+                _await_now(I, I.call_value(self.f, [item]), cx)
+        if self.kind == "collect":
+            return READY(VecObj(items))
+        if self.kind == "fold":
+            return READY(self.acc)
+        if self.kind == "count":
+            return READY(n)
+        return READY(UNIT)
+
+    def rust_drop(self, I):
+        pass
+
+
+@T.trait("StreamExt", "collect")
+def _stream_collect(I, a, d):
+    return StreamDrain("collect", a[0])
+
+
+@T.trait("StreamExt", "fold")
+def _stream_fold(I, a, d):
+    return StreamDrain("fold", a[0], f=a[2], acc=a[1])
+
+
+@T.trait("StreamExt", "for_each")
+def _stream_for_each(I, a, d):
+    return StreamDrain("for_each", a[0], f=a[1])
+
+
+@T.trait("StreamExt", "count")
+def _stream_count(I, a, d):
+    return StreamDrain("count", a[0])
